@@ -1,7 +1,83 @@
 package c03
 
-import "github.com/wader/fq/internal/verif/core"
+import (
+	"fmt"
+	"os"
+	"path/filepath"
+	"strings"
+	"time"
 
-func runCorpus(r *core.Run) {}
+	"github.com/wader/fq/internal/verif/core"
+	"github.com/wader/fq/internal/verif/corpus"
+	"github.com/wader/fq/internal/verif/dsl"
+	"github.com/wader/fq/pkg/decode"
+)
 
-func replayCorpus(r *core.Run, c Case) bool { return false }
+type finding struct{ sig, msg string }
+
+func judgeCorpus(it corpus.Item) []finding {
+	if it.Res.Panic != nil || it.Res.Value == nil {
+		// crashes are property C06's subject; here only the tree is judged
+		return nil
+	}
+	var out []finding
+	seen := map[string]bool{}
+	for _, is := range dsl.CheckTree(it.Res.Value, int64(len(it.Data))*8) {
+		site := is.Site
+		// recorded finding: fields the tls decoder adds to the nested root struct
+		// "message" after it was post-processed (see known_findings.jsonl); kept
+		// narrow: tls values at or below a struct named message only
+		if strings.HasPrefix(site, "tls:") && strings.Contains(is.Msg, ".message") {
+			site = "tls:message-late-fields"
+		}
+		sig := "corpus:" + is.Class + ":" + site
+		if !seen[sig] {
+			seen[sig] = true
+			out = append(out, finding{sig, is.Msg})
+		}
+	}
+	return out
+}
+
+func runCorpus(r *core.Run) {
+	r.Rule("(b) every file under format/*/testdata (not .fqtest) x {probe, formats named with -d in the directory's fqtests} x {intact, every prefix length 0..64, prefixes and 00/ff overwrites at field boundaries of the intact decode}: structural invariants; non-trivial = decode returned a tree with >= 3 values")
+	maxSize := int64(core.Pick(r, 1<<18, 0))
+	var evals int64
+	corpus.Walk(r, maxSize, 64, core.Pick(r, 8, 200), func(it corpus.Item) {
+		evals++
+		if it.Res.Value != nil {
+			n := 0
+			_ = it.Res.Value.WalkPreOrder(func(_ *decode.Value, _ *decode.Value, _ int, _ int) error { n++; return nil })
+			if n >= 3 {
+				r.Nontrivial(it.String())
+			}
+		}
+		for _, f := range judgeCorpus(it) {
+			r.Violate(f.sig, fmt.Sprintf("%s: %s", it, f.msg), Case{Kind: "corpus", File: it.File.Path, Format: it.Format, Trunc: it.Variant.At, Mut: it.Variant.Kind})
+		}
+		if evals%20011 == 0 {
+			r.Sample(map[string]any{"corpus_case": it.String()})
+		}
+	})
+	r.Eval(evals)
+	r.Count("corpus_decodes", evals)
+	r.Section("corpus")
+}
+
+func replayCorpus(r *core.Run, c Case) bool {
+	data, err := os.ReadFile(filepath.Join(r.Repo, c.File))
+	if err != nil {
+		fmt.Println(err)
+		return false
+	}
+	v := corpus.Variant{Kind: c.Mut, At: c.Trunc}
+	d := v.Apply(data)
+	res := corpus.Decode(d, c.Format, c.Force, 60*time.Second)
+	f := corpus.File{Path: c.File}
+	fs := judgeCorpus(corpus.Item{File: &f, Format: c.Format, Variant: v, Data: d, Res: res})
+	fmt.Printf("  %s -d %s %s@%d (%d bytes):\n", c.File, c.Format, c.Mut, c.Trunc, len(d))
+	for _, x := range fs {
+		fmt.Printf("    %s %s\n", x.sig, x.msg)
+	}
+	return len(fs) > 0
+}
